@@ -20,10 +20,23 @@ Definition DASH : N := 45%N.
    - storage_type str / int / float -> one `store` option;  bool -> two switches;  anything else: none
    - VirtualFieldMixin: no entry in Config._data, value computed by the getter
    - InstanceMethodFieldMixin: no entry in Config._data, bound method in the instance __dict__ *)
+(* StringField options (string_field.py): transform_strip (None / strip() / strip(chars)), transform_case
+   (lower = true / upper = false), min_len, max_len, regex (one of a small concrete family, see re_match), choices
+   ([] = no choices: `if self.choices` is falsy for None and for an empty list) *)
+Record stropts := mkso {
+  so_strip : option (option str);
+  so_case : option bool;
+  so_min : option Z;
+  so_max : option Z;
+  so_regex : option N;
+  so_choices : list str
+}.
+Definition so_plain : stropts := mkso None None None None None [].
+
 Inductive leafkind :=
-| KStr                                   (* StringField() *)
+| KStr (o : stropts)                     (* StringField with the options o *)
 | KInt (lo hi : option Z)                (* IntField(min=lo, max=hi) *)
-| KFloat                                 (* FloatField() *)
+| KFloat (lo hi : option spec_float)     (* FloatField(min=lo, max=hi) *)
 | KBool                                  (* BoolField() *)
 | KAny                                   (* Field(): storage_type Any, accepts everything *)
 | KOther                                 (* ListField / DictField / BytesField: persistent, no option; never assigned here *)
@@ -263,10 +276,49 @@ Inductive vres := VOk (v : pyval) | VBad | VUnm.
 Definition TRUE_VALUES : list str := [sa "t"; sa "true"; sa "1"; sa "on"; sa "yes"; sa "y"].
 Definition FALSE_VALUES : list str := [sa "f"; sa "false"; sa "0"; sa "off"; sa "no"; sa "n"].
 Definition str_in (s : str) (l : list str) : bool := existsb (str_eqb s) l.
+Definition nonempty_l (s : str) : bool := match s with [] => false | _ => true end.
 
 Definition in_bounds (lo hi : option Z) (z : Z) : bool :=
   match lo with Some a => a <=? z | None => true end &&
   match hi with Some b => z <=? b | None => true end.
+
+(* NumberField: `if self.min is not None and not num >= self.min: raise`, same for max (NaN fails both) *)
+Definition float_in_bounds (lo hi : option spec_float) (f : spec_float) : bool :=
+  match lo with Some a => SFleb a f | None => true end &&
+  match hi with Some b => SFleb f b | None => true end.
+
+(* the regular expressions used with StringField(regex=..) here, matched as re.match does (anchored at the
+   start; \Z = very end):  id 0 = one or more of a-z up to the very end; id 1 = a-z followed by any of a-z 0-9 _ - up to the very end *)
+Definition is_lower_c (c : N) : bool := ((97 <=? c) && (c <=? 122))%N.
+Definition re_match (id : N) (s : str) : bool :=
+  match id with
+  | 0%N => nonempty_l s && forallb is_lower_c s
+  | _ => match s with
+         | c :: r => is_lower_c c && forallb (fun x => is_lower_c x || is_digit x || (x =? 95)%N || (x =? 45)%N) r
+         | [] => false
+         end
+  end.
+
+(* StringField._validate on a str: strip, THEN case (the order of the code), length bounds, regex, choices *)
+Definition validate_str (o : stropts) (s : str) : vres :=
+  if all_ascii s then
+    let s1 := match so_strip o with
+              | None => s
+              | Some None => strip_ws s
+              | Some (Some ch) => strip_chars ch s
+              end in
+    let s2 := match so_case o with
+              | None => s1
+              | Some true => lower s1
+              | Some false => upper s1
+              end in
+    let n := Z.of_nat (length s2) in
+    if match so_min o with Some a => n <? a | None => false end then VBad
+    else if match so_max o with Some b => b <? n | None => false end then VBad
+    else if match so_regex o with Some id => negb (re_match id s2) | None => false end then VBad
+    else if match so_choices o with [] => false | ch => negb (str_in s2 ch) end then VBad
+    else VOk (PStr s2)
+  else VUnm.
 
 Section Validate.
   (* Python's float(str) is library behaviour: a table supplied with each case
@@ -280,7 +332,7 @@ Section Validate.
     | PNone => VOk PNone
     | _ =>
       match k with
-      | KStr => match x with PStr _ => VOk x | _ => VBad end
+      | KStr o => match x with PStr s => validate_str o s | _ => VBad end
       | KInt lo hi =>
           match x with
           | PInt z => if in_bounds lo hi z then VOk (PInt z) else VBad
@@ -293,13 +345,13 @@ Section Validate.
           | PFloat _ => VUnm
           | _ => VBad
           end
-      | KFloat =>
+      | KFloat lo hi =>
           match x with
-          | PFloat f => VOk (PFloat f)
+          | PFloat f => if float_in_bounds lo hi f then VOk (PFloat f) else VBad
           | PStr s => match float_of_str s with
                       | None => VUnm
                       | Some None => VBad
-                      | Some (Some f) => VOk (PFloat f)
+                      | Some (Some f) => if float_in_bounds lo hi f then VOk (PFloat f) else VBad
                       end
           | PInt _ => VUnm
           | _ => VBad
@@ -450,7 +502,7 @@ Definition no_name (name : str) : str := sa "--no-" ++ map opt_char name.
                          add_argument(off_arg, dest=name, action="store_false", default=None) *)
 Definition opts_of (name : str) (n : snode) : list opt :=
   match n with
-  | SLeaf KStr _ | SLeaf (KInt _ _) _ | SLeaf KFloat _ => [mkopt (opt_name name) name AStore PNone]
+  | SLeaf (KStr _) _ | SLeaf (KInt _ _) _ | SLeaf (KFloat _ _) _ => [mkopt (opt_name name) name AStore PNone]
   | SLeaf KBool _ => [mkopt (opt_name name) name AStoreTrue PNone; mkopt (no_name name) name AStoreFalse PNone]
   | _ => []
   end.
@@ -553,9 +605,9 @@ Definition known_F27 (f : fld) : bool :=
 (* ------------------------------------------------------------------------------------------ *)
 Definition kind_tag (n : snode) : pyval :=
   match n with
-  | SLeaf KStr _ => o_str "str"
+  | SLeaf (KStr _) _ => o_str "str"
   | SLeaf (KInt _ _) _ => o_str "int"
-  | SLeaf KFloat _ => o_str "float"
+  | SLeaf (KFloat _ _) _ => o_str "float"
   | SLeaf KBool _ => o_str "bool"
   | SLeaf KAny _ => o_str "any"
   | SLeaf KOther _ => o_str "other"
